@@ -1,13 +1,13 @@
-\* C20: thorough: as quick (every hook profile for the good cases), but every order of the module_depends() calls
+\* C20: thorough: every case on <= 3 modules without self-dependencies and with every shared object present (cyclic graphs included), calls in name order, every listing, EVERY hook profile
 SPECIFICATION Spec
 CONSTANTS
     Source = "enum"
     MaxN = 3
-    SelfLoops = TRUE
-    DepOrders = "all"
-    WithMissing = TRUE
+    SelfLoops = FALSE
+    DepOrders = "asc"
+    WithMissing = FALSE
     WithAnti = FALSE
-    Profiles = "good"
+    Profiles = "all"
     Bug = "none"
 INVARIANTS
     TypeOK RdependsMirrorsDepends SetEmptyAtExit NoGhostInGoodCase
